@@ -8,7 +8,7 @@ de-armored export, same fingerprint / identities / subkeys / exportable signatur
 twins), and every private operation refused."""
 from .. import harness, certmachine
 
-RULE = ('same history generator as C15 (two keys of 6 algorithms, identities, photos, 7 kinds of subkey, third-party certifications, revocations, protect / unlock, '
+RULE = ('same history generator as C15 (two keys of 6 algorithms, each starting either as a bare secret key from the pool or as a complete secret key written by the reference the way another implementation would -- hashed areas with 5-/2-octet subpacket lengths, private-use subpackets, unknown flag bits, ECDH subkeys with non-default KDF parameters --, identities, photos, 7 kinds of subkey, third-party certifications, revocations, protect / unlock, '
         'copy, export/import, and "keep a public twin" steps whose result is re-inspected after every later operation); per step: packet tags and armor label of '
         'the fresh twin (taken locked and inside an unlock scope), byte search for every secret integer of the pooled keys (known independently of PGPy), equality of '
         'fingerprint, components and signature multiset with the private key, refusal of sign/certify/revoke/revoker/decrypt/add_subkey/bind on every public object. '
@@ -18,11 +18,20 @@ ASSUMPTIONS = ['secret integers are those of the committed key pool (made with c
                'asserted (the statement does not promise that they track later additions)']
 
 
+def _start_classes(case):
+    out = []
+    for fs in case.get('start') or []:
+        if fs is not None:
+            out.append('start/foreign-key/quirk%d' % (fs[2] % len(certmachine.QUIRKS)))
+            out += ['start/foreign-subkey/' + certmachine.FOREIGN_SUBS[i % len(certmachine.FOREIGN_SUBS)] for i in fs[1][:2]]
+    return out or ['start/bare-secret-key']
+
+
 def classify(rec, case, res, applied):
     names = tuple(applied)
     held_then_more = 'pubkey' in names[:-1]
     nt = held_then_more or ('add_subkey' in names and ('protect' in names or len(names) >= 3))
-    rec.case(('hist',) + names, bool(nt), ['len/%d' % min(len(names), 12)] + ['op/' + n for n in set(names)] + (['early-twin-reinspected'] if held_then_more else []),
+    rec.case(('hist', 'foreign' if case.get('start') else 'bare') + names, bool(nt), ['len/%d' % min(len(names), 12)] + ['op/' + n for n in set(names)] + (['early-twin-reinspected'] if held_then_more else []) + _start_classes(case),
              {'keys': case['kids'], 'applied_operations': list(names)})
     for clause, cause, det in res:
         rec.finding(clause, cause, case, det)
@@ -50,6 +59,12 @@ def scripted(arg):
     for kid in certmachine.PRIMARIES:
         for sc in SCRIPTS:
             case = {'kids': [kid, 'ed25519-2' if kid != 'ed25519-2' else 'ed25519-0'], 'ops': sc}
+            res, applied = certmachine.run_ops(case, certmachine.inv_c07)
+            classify(rec, case, res, applied)
+        # the same key as another implementation would have written it (foreign hashed areas, ECDH subkeys with other KDF parameters)
+        for q in range(len(certmachine.QUIRKS)):
+            case = {'kids': [kid, 'ed25519-2' if kid != 'ed25519-2' else 'ed25519-0'], 'start': [[q, [q, q + 3], q], None],
+                    'ops': [['pubkey', 0], ['add_uid', 0, 5, 0, 0, 0, 0, 1], ['copy', 0], ['protect', 0, 0], ['pubkey', 0], ['export_import', 0, q]]}
             res, applied = certmachine.run_ops(case, certmachine.inv_c07)
             classify(rec, case, res, applied)
     return rec
